@@ -4,6 +4,7 @@ package service_test
 
 import (
 	"bytes"
+	"encoding/json"
 	"fmt"
 	"math/big"
 	"sort"
@@ -54,7 +55,7 @@ var (
 	// OG1 / OG0: SetObjGraph on the scripted contract account (which has an active
 	// contract and an object graph from the setup block): OG1 stores a new graph
 	// (includeGraph=true), OG0 only a new nextHash (includeGraph=false)
-	c16Prims       = []string{"A+1", "A:=0", "B+1", "SET", "DEL", "EVT", "BTP", "STEP", "XFER", "F+1", "XFERF", "GSET", "XFERA", "OG1", "OG0"}
+	c16Prims       = []string{"A+1", "A:=0", "B+1", "SET", "DEL", "EVT", "BTP", "STEP", "XFER", "F+1", "XFERF", "GSET", "XFERA", "OG1", "OG0", "DEP+", "DEP-"}
 	c16PrimsQuick3 = []string{"A:=0", "OG0", "XFERF", "F+1", "XFERA"}
 	c16PrimsMid3   = []string{"A:=0", "OG0", "OG1", "SET", "STEP", "XFERF", "F+1", "XFERA"}
 	c16PrimsDeep4  = []string{"A:=0", "XFERA", "SET", "OG0", "STEP", "XFERF", "F+1"}
@@ -106,7 +107,51 @@ type c16Variant struct {
 	SmallStep bool   `json:"small_step_limit"`
 }
 
-const c16ScoreBal = int64(3)
+const (
+	c16ScoreBal = int64(3)
+	c16Dep0     = int64(5000) // fee deposit of the scripted contract made by the setup block
+	c16DepAdd   = int64(10)
+	c16DepSub   = int64(3)
+)
+
+// c16DC is the DepositContext used to read deposit information.
+type c16DC struct{}
+
+func (c16DC) StepPrice() *big.Int        { return c16Price }
+func (c16DC) BlockHeight() int64         { return 2 }
+func (c16DC) DepositTerm() int64         { return 0 }
+func (c16DC) DepositIssueRate() *big.Int { return big.NewInt(8) }
+func (c16DC) TransactionID() []byte      { return nil }
+
+// c16DepositOf lists the deposits of the scripted contract account.
+func c16DepositOf(wss state.WorldSnapshot, addr module.Address) string {
+	as := wss.GetAccountSnapshot(addr.ID())
+	if as == nil {
+		return "<no account>"
+	}
+	m, err := as.GetDepositInfo(c16DC{}, module.JSONVersionLast)
+	if err != nil {
+		return "<error " + err.Error() + ">"
+	}
+	if m == nil {
+		return "<none>"
+	}
+	js, _ := json.Marshal(m["deposits"])
+	return fmt.Sprintf("available=%v deposits=%s", m["availableDeposit"], js)
+}
+
+func c16ExpectedDeposit(eff []c16Effect) string {
+	v := c16Dep0
+	for _, e := range eff {
+		switch e.Kind {
+		case "DEP+":
+			v += c16DepAdd
+		case "DEP-":
+			v -= c16DepSub
+		}
+	}
+	return fmt.Sprintf("available=0x%x deposits=[{\"depositRemain\":\"0x%x\"}]", v, v)
+}
 
 var c16Variants = []c16Variant{
 	{"payer-large,limit-big", false, false},
@@ -123,9 +168,10 @@ func (v *c16Variant) limit() int64 {
 }
 
 type c16Case struct {
-	Variant int        `json:"variant"`
-	Script  *c16Script `json:"script,omitempty"` // family 1
-	Block   []txSpec   `json:"block,omitempty"`  // family 2 (real transactions, no scripted handler)
+	Variant int          `json:"variant"`
+	Script  *c16Script   `json:"script,omitempty"` // family 1
+	Pair    []*c16Script `json:"pair,omitempty"`   // family 3: two scripted transactions in one block
+	Block   []txSpec     `json:"block,omitempty"`  // family 2 (real transactions, no scripted handler)
 }
 
 // ---- the scripted handler --------------------------------------------------------
@@ -144,6 +190,9 @@ type c16Scripter struct {
 	flat                bool // cur is a flattened reference script (effects carry explicit tags)
 	flatEff             []c16Effect
 	setup               *c16Variant
+	queue               []*c16Script // family 3: one script per transaction of the block
+	qi                  int
+	recs                []c16TxRec
 	// recording of the last execution
 	pos         int
 	outerEff    []c16Effect
@@ -158,6 +207,7 @@ type c16Scripter struct {
 
 func (sc *c16Scripter) reset() {
 	sc.pos, sc.outerEff, sc.outerErr, sc.ran = 0, nil, nil, false
+	sc.qi, sc.recs = 0, nil
 	sc.nestedFail, sc.nestedOK, sc.xferFail, sc.stepFailed = 0, 0, 0, false
 }
 
@@ -214,8 +264,25 @@ func (h *c16Handler) ExecuteSync(cc contract.CallContext) (error, *codec.TypedOb
 			return h.runFlat(cc), nil, nil
 		}
 		h.script = sc.cur
+		if sc.queue != nil {
+			if sc.qi >= len(sc.queue) {
+				sc.harnessErrs = append(sc.harnessErrs, "more scripted transactions than scripts")
+				return scoreresult.ErrUnknownFailure, nil, nil
+			}
+			h.script = sc.queue[sc.qi]
+			sc.qi++
+		}
 	}
 	err := h.run(cc)
+	if h.outer && sc.queue != nil {
+		rec := c16TxRec{}
+		if err == nil {
+			rec.Eff = h.eff
+		} else {
+			rec.Err = err.Error()
+		}
+		sc.recs = append(sc.recs, rec)
+	}
 	if h.outer {
 		sc.outerErr = err
 		if err == nil {
@@ -243,6 +310,10 @@ func (h *c16Handler) runSetup(cc contract.CallContext) error {
 		return err
 	}
 	if err := as.SetObjGraph(c16CodeID, true, 1, c16Graph0); err != nil {
+		return err
+	}
+	// and a fee deposit (term 0 => V2 deposit, identified by the empty id)
+	if err := as.AddDeposit(cc, big.NewInt(c16Dep0)); err != nil {
 		return err
 	}
 	// a second contract account (what the deploy handler does first: InitContractAccount)
@@ -285,6 +356,14 @@ func (h *c16Handler) apply(cc contract.CallContext, kind string, tag int) error 
 		}
 	case "OG0":
 		if err := cc.GetAccountState(sc.score.ID()).SetObjGraph(c16CodeID, false, 100+tag, nil); err != nil {
+			return err
+		}
+	case "DEP+":
+		if err := cc.GetAccountState(sc.score.ID()).AddDeposit(cc, big.NewInt(c16DepAdd)); err != nil {
+			return err
+		}
+	case "DEP-":
+		if _, _, err := cc.GetAccountState(sc.score.ID()).WithdrawDeposit(cc, []byte{}, big.NewInt(c16DepSub)); err != nil {
 			return err
 		}
 	case "EVT":
@@ -415,6 +494,8 @@ type c16Obs struct {
 	PayerBal   string
 	TreasBal   string
 	OtherBal   string
+	Dep        string // deposit list of the scripted contract (live)
+	DepStored  string // same, re-read from the flushed snapshot ("" = not re-opened)
 	OG         string // object graph of the scripted contract, live: next/graphHash/data
 	OGStored   string // same, from the state re-opened from the flushed snapshot ("" = not re-opened for this case)
 	FreshBal   string // balance of the fresh EOA ("<absent>" if the account does not exist)
@@ -496,6 +577,9 @@ func c16NewCtx() (*c16Ctx, error) {
 		wss := service.VerifWorldSnapshot(tr)
 		c.pre[vi] = &c16Obs{}
 		c.fillState(c.pre[vi], wss)
+		if c.pre[vi].Dep != c16ExpectedDeposit(nil) {
+			return nil, fmt.Errorf("deposit not installed: %s want %s", c.pre[vi].Dep, c16ExpectedDeposit(nil))
+		}
 		if c.pre[vi].OG != c16ExpectedOG(nil) {
 			return nil, fmt.Errorf("object graph not installed: %s", c.pre[vi].OG)
 		}
@@ -516,6 +600,7 @@ func (c *c16Ctx) fillState(o *c16Obs, wss state.WorldSnapshot) {
 	o.OtherBal = balanceOf(wss, c.sc.other).String()
 	o.ScoreBal = balanceOf(wss, c.sc.score).String()
 	o.OG = c16ObjGraphOf(wss, c.sc.score)
+	o.Dep = c16DepositOf(wss, c.sc.score)
 	o.FreshBal = "<absent>"
 	if as := wss.GetAccountSnapshot(c16FreshEOA.ID()); as != nil {
 		o.FreshBal = as.GetBalance().String()
@@ -629,6 +714,7 @@ func (c *c16Ctx) exec(vi int, limit int64) (*c16Obs, error) {
 			return nil, err
 		}
 		o.OGStored = c16ObjGraphOf(stored, c.sc.score)
+		o.DepStored = c16DepositOf(stored, c.sc.score)
 	}
 	sc := c.sc
 	o.Ran, o.Effects, o.NestFail, o.NestOK, o.XferFail, o.StepFail = sc.ran, sc.outerEff, sc.nestedFail, sc.nestedOK, sc.xferFail, sc.stepFailed
@@ -677,7 +763,7 @@ func (c *c16Ctx) run(cs *c16Case) (*c16Obs, error) {
 	c.sc.cur, c.sc.flat = cs.Script, false
 	// scripts that touch the object graph and have <= 2 actions are also read
 	// back from the flushed snapshot (bounded so that the database stays small)
-	c.reopen = scriptLen(cs.Script) <= 2 && (scriptHas(cs.Script, "OG0") || scriptHas(cs.Script, "OG1"))
+	c.reopen = scriptLen(cs.Script) <= 2 && (scriptHas(cs.Script, "OG0") || scriptHas(cs.Script, "OG1") || scriptHas(cs.Script, "DEP+") || scriptHas(cs.Script, "DEP-"))
 	defer func() { c.reopen = false }()
 	return c.exec(cs.Variant, c16Variants[cs.Variant].limit())
 }
@@ -689,6 +775,7 @@ type c16Env struct {
 	classes   sync.Map
 	twice     int64
 	realCases int64
+	pairCases int64
 }
 
 func (e *c16Env) count(k string) {
@@ -810,6 +897,22 @@ func (e *c16Env) check(c *c16Ctx, cs *c16Case, o *c16Obs) {
 	}
 	if o.OGStored != "" {
 		e.count("object-graph-reread-from-flushed-snapshot")
+	}
+	// fee deposit of the contract: pre-state's after a failure, else the surviving deposit operations
+	if want := c16ExpectedDeposit(surviving); o.Dep != want {
+		fail(kind+"-deposit-differs-from-surviving-frames", fmt.Sprintf("deposits after the transaction: %s\nexpected: %s", o.Dep, want))
+	} else if o.DepStored != "" && o.DepStored != want {
+		fail(kind+"-stored-deposit-differs-from-surviving-frames", fmt.Sprintf("deposits re-read from the flushed snapshot: %s expected %s", o.DepStored, want))
+	}
+	if scriptHas(cs.Script, "DEP+") || scriptHas(cs.Script, "DEP-") {
+		switch {
+		case failed:
+			e.count("deposit-changed-then-tx-failed")
+		case hasKind(surviving, "DEP+") || hasKind(surviving, "DEP-"):
+			e.count("deposit-change-survived")
+		default:
+			e.count("deposit-changed-in-rolled-back-frame-of-successful-tx")
+		}
 	}
 	if o.BTPData != ref.BTPData {
 		fail(kind+"-btp-digest-differs", fmt.Sprintf("btp digest %s reference %s", o.BTPData, ref.BTPData))
@@ -983,7 +1086,7 @@ func (sh *c16Shape) build(prims []int, alphabet []string) *c16Script {
 func TestVerifC16(t *testing.T) {
 	r := ev.Start(t, "C16", "exploration")
 	maxT := r.Pick(3, 4)
-	r.Rule(fmt.Sprintf("family 1 (scripted): all scripts with <= %d primitive actions in total from {A+1,A:=0,B+1,SET,DEL,EVT,BTP,STEP,XFER(nested real TransferHandler frame payer->existing B),F+1(direct credit of a FRESH EOA),XFERF(nested real transfer payer->the FRESH EOA),GSET(storage write on a FRESH contract address),XFERA(nested real plain TransferHandler frame payer->hx alias of the chain SCORE: debits, then fails InvalidAddress),OG1(SetObjGraph with a new graph on the scripted contract account),OG0(SetObjGraph with includeGraph=false: only a new nextHash)} laid out as outer-before / one optional nested cc.Call frame / outer-after (every split), nested and outer terminator each from {OK,REVERT(32),OOS,INVALID,OOB}, on 4 variants {payer balance = stepLimit*price | large} x {step limit large | small}; total = 4 (thorough only) on the two opposite variants over {A:=0,XFERA,SET,OG0,STEP,XFERF,F+1}; thorough total = 3: all 15 primitives on the two opposite variants, {A:=0,OG0,OG1,SET,STEP,XFERF,F+1,XFERA} on the other two; quick: total <= 1 on all variants, total = 2 on the two opposite variants, total = 3 on the first variant over {A:=0,OG0,XFERF,F+1,XFERA}. Family 2 (no scripted handler): real v3 transactions through the real handlers that fail after a partial effect, see real_tx_family in coverage. A case = (variant, script) or (variant, block); every case is executed by a real transition", maxT))
+	r.Rule(fmt.Sprintf("family 1 (scripted): all scripts with <= %d primitive actions in total from {A+1,A:=0,B+1,SET,DEL,EVT,BTP,STEP,XFER(nested real TransferHandler frame payer->existing B),F+1(direct credit of a FRESH EOA),XFERF(nested real transfer payer->the FRESH EOA),GSET(storage write on a FRESH contract address),XFERA(nested real plain TransferHandler frame payer->hx alias of the chain SCORE: debits, then fails InvalidAddress),OG1(SetObjGraph with a new graph on the scripted contract account),OG0(SetObjGraph with includeGraph=false: only a new nextHash),DEP+(AddDeposit 10 to the fee deposit the contract got in the setup block),DEP-(partial WithdrawDeposit 3)} laid out as outer-before / one optional nested cc.Call frame / outer-after (every split), nested and outer terminator each from {OK,REVERT(32),OOS,INVALID,OOB}, on 4 variants {payer balance = stepLimit*price | large} x {step limit large | small}; total = 4 (thorough only) on the two opposite variants over {A:=0,XFERA,SET,OG0,STEP,XFERF,F+1}; thorough total = 3: all 15 primitives on the two opposite variants, {A:=0,OG0,OG1,SET,STEP,XFERF,F+1,XFERA} on the other two; quick: total <= 1 on all variants, total = 2 on the two opposite variants, total = 3 on the first variant over {A:=0,OG0,XFERF,F+1,XFERA}. Family 2 (no scripted handler): real v3 transactions through the real handlers that fail after a partial effect, see real_tx_family in coverage. A case = (variant, script) or (variant, block); every case is executed by a real transition", maxT))
 	r.Assume("the designated contract address runs a scripted contract.SyncContractHandler installed through a ContractManager wrapper (FixtureConfig.NewPlatform); everything else is real",
 		"reference for the expected world: the same machinery executing, in ONE frame, exactly the effects of the frames that returned success (metamorphic); payer/treasury balances are compared explicitly and zeroed before hashing",
 		"which frames failed is known to the harness because its own handler returns the errors; step accounting, frame snapshot/reset, receipts are goloop's",
@@ -998,6 +1101,16 @@ func TestVerifC16(t *testing.T) {
 			t.Fatalf("ctx: %v", err)
 		}
 		defer c.fn.Close()
+		if len(cs.Pair) > 0 {
+			r.Eval(1)
+			if o, err := c.execPair(cs.Variant, cs.Pair); err != nil {
+				r.Violation("transition-failed", err.Error(), &cs)
+			} else {
+				env.checkPair(c, &cs, o)
+			}
+			r.Finish(false)
+			return
+		}
 		if cs.Script == nil {
 			u := c.realUniverse()
 			ref, err := c.execReal(u, cs.Variant, nil)
@@ -1028,6 +1141,7 @@ func TestVerifC16(t *testing.T) {
 		vi   int
 		sh   c16Shape
 		real bool
+		pair bool
 		i1   int
 	}
 	var chunks []chunk
@@ -1036,6 +1150,16 @@ func TestVerifC16(t *testing.T) {
 	for vi := 0; vi < 2; vi++ {
 		for i1 := range nReal {
 			chunks = append(chunks, chunk{vi: vi, real: true, i1: i1})
+		}
+	}
+	// family 3: all ordered pairs of the pair scripts; variant 0 (thorough: also variant 2).
+	// Only payer-large variants: a tight payer cannot afford two transactions.
+	for _, vi := range []int{0, 2} {
+		if vi == 2 && r.Quick() {
+			continue
+		}
+		for i1 := range c16PairScripts() {
+			chunks = append(chunks, chunk{vi: vi, pair: true, i1: i1})
 		}
 	}
 	for _, sh := range c16Shapes(maxT) {
@@ -1083,6 +1207,17 @@ func TestVerifC16(t *testing.T) {
 		}
 		defer func() { pool <- c }()
 		ch := chunks[ci]
+		if ch.pair {
+			env.runPairChunk(c, ch.vi, ch.i1, func() bool {
+				if atomic.LoadInt32(&expired) != 0 || r.Expired() {
+					atomic.StoreInt32(&expired, 1)
+					return true
+				}
+				return false
+			})
+			atomic.AddInt64(&done, 1)
+			return
+		}
 		if ch.real {
 			env.runRealChunk(c, ch.vi, ch.i1, r.Thorough(), func() bool {
 				if atomic.LoadInt32(&expired) != 0 || r.Expired() {
@@ -1161,6 +1296,7 @@ func TestVerifC16(t *testing.T) {
 		"real-transfer-frame-failed-after-debit,tx-failed", "real-transfer-frame-failed-after-debit,tx-succeeded",
 		"object-graph-set-then-tx-failed", "object-graph-change-survived", "object-graph-set-in-rolled-back-frame-of-successful-tx",
 		"object-graph-reread-from-flushed-snapshot",
+		"deposit-changed-then-tx-failed", "deposit-change-survived", "deposit-changed-in-rolled-back-frame-of-successful-tx",
 		"fresh-account-touched-then-tx-failed", "fresh-account-effect-survived", "fresh-account-touched-in-rolled-back-frame-of-successful-tx",
 		"ran-out-of-steps-in-place", "fee-rollback-after-successful-script",
 		fmt.Sprintf("failed:status-%d", module.StatusReverted), fmt.Sprintf("failed:status-%d", module.StatusOutOfStep),
@@ -1185,6 +1321,14 @@ func TestVerifC16(t *testing.T) {
 		"rule":                           "sender = payer (variants payer-large / payer owns exactly 2M); recipient in {fresh EOA, existing EOA, fresh cx address without contract, chain SCORE cx0, a second contract account, hx-alias of the chain SCORE (hx00..00), hx-alias of the second contract account, cx-alias of the funded existing EOA}; dataType call x method {foo,getRevision} x value {0,1,5} x stepLimit {2M, default+input}; plain transfer and message x value {0, 1, 2^90 (> balance)} x stepLimit {min-1 (message only), min, 2M}; blocks of one transaction, and blocks of two (thorough: all ordered pairs; quick: pairs over {call transactions, plain transfers of 1} with the 2M limit)",
 		"oracle":                         "per receipt: failed => no logs / messages / empty bloom; balances of the whole closed universe {payer, existing EOA, fresh EOA, fresh cx, chain SCORE, second contract account, scripted cx, treasury, god} (recipients resolved by account id, so aliases map to the account they share) = did-nothing block adjusted by fee (always) and value (only on success); a fresh account not credited by a successful transaction must not exist; full state hash with the universe's balances zeroed and BTP digest equal those of the did-nothing (empty) block",
 		"failed_with_value_to_fresh_EOA": withFresh,
+	})
+	for _, need := range []string{"pair:first-failed,second-changed-deposit-and-failed", "pair:first-failed,second-changed-deposit-and-succeeded", "pair:first-succeeded,second-failed"} {
+		r.Sanity(classes[need] > 0, "family 3: class %q never occurred", need)
+	}
+	r.Set("two_tx_family", map[string]interface{}{
+		"cases":  atomic.LoadInt64(&env.pairCases),
+		"rule":   "all ordered pairs (tx1, tx2) of 79 scripts {straight-line <= 2 actions over {SET,DEP+,DEP-,B+1} x terminator {OK,REVERT,INVALID}} + {one nested frame {x; OK|REVERT} x outer {OK,REVERT}}, both transactions scripted calls in ONE block on the same world state; variant payer-large/limit-big (thorough also payer-large/limit-small)",
+		"oracle": "per receipt as in family 1; final deposit list / object graph (live and re-read from the flushed snapshot), contract storage, balances = pre-state + surviving effects of the successful transactions only; payer -fees, treasury +fees; normalised full state hash and BTP digest = one transaction performing the surviving effects in one frame",
 	})
 	r.Set("max_total_actions", maxT)
 	r.Set("chunks", len(chunks))
